@@ -36,6 +36,12 @@ func init() {
 			"the collection and typed-slice twins are compared only when Get selects the same values on them as on the simple data (differences there are C11's subject); DelOne/SetOne take the first member in member order, which differs between a map and an ordered collection: only faults are compared for them; a collection may refuse a Set that a map or slice accepts",
 		},
 		Findings: map[string]func(v *mon.Violation) bool{
+			// Set creates the array for an index below a member that does not exist yet with
+			// make([]any, n+1) unchecked: n+1 wraps around or exceeds what the runtime can allocate
+			"setHugeIndexCreation": func(v *mon.Violation) bool {
+				return (v.Entry == "jp.Expr.Set" || v.Entry == "jp.Expr.SetOne" || strings.HasPrefix(v.Entry, "jp.Expr.Set(")) &&
+					v.Kind == "panic" && strings.Contains(v.Observed, "makeslice: len out of range")
+			},
 			"mutationSliceSemantics": func(v *mon.Violation) bool {
 				// the path of the mutation contains a slice fragment (set.go, modify.go and Slice.remove carry
 				// their own slice arithmetic: inclusive end as pinned by remove_test.go, other clamping)
@@ -1141,6 +1147,44 @@ func run(c *mon.Ctx) {
 				for b := -L - 2; b <= L+2; b++ {
 					ck.check(op, jpref.Path{jpspec.Root(), jpspec.Union(a, b)}, flat, true, "")
 				}
+			}
+		}
+	}
+	// magnitudes at and near the int limits as slice bounds and steps, indexes and union members
+	for _, L := range []int{0, 1, 3} {
+		flat := make([]any, L)
+		maps := make([]any, L)
+		for i := 0; i < L; i++ {
+			flat[i] = int64(100 + i)
+			maps[i] = map[string]any{"k": int64(200 + i), "z": int64(300 + i)}
+		}
+		for _, sl := range jpspec.ExtremeSlices() {
+			idx++
+			if !c.Mine(idx) {
+				continue
+			}
+			f := jpspec.Slice(sl...)
+			c.Cover("lattice:extreme-magnitudes")
+			ck.check("Remove", jpref.Path{jpspec.Root(), f}, flat, true, "")
+			ck.check("Modify", jpref.Path{jpspec.Root(), f}, flat, true, "")
+			ck.check("Del", jpref.Path{jpspec.Root(), f, jpspec.Child("k")}, maps, true, "")
+			ck.check("Set", jpref.Path{jpspec.Root(), f, jpspec.Child("k")}, maps, true, "")
+			ck.check("Modify", jpref.Path{jpspec.Root(), f, jpspec.Child("z")}, maps, true, "")
+		}
+		for _, a := range jpspec.ExtremeInts {
+			idx++
+			if !c.Mine(idx) {
+				continue
+			}
+			c.Cover("lattice:extreme-magnitudes")
+			for _, op := range []string{"Remove", "RemoveOne", "Del", "DelOne", "Modify", "Set"} {
+				ck.check(op, jpref.Path{jpspec.Root(), jpspec.Nth(a)}, flat, true, "")
+				ck.check(op, jpref.Path{jpspec.Root(), jpspec.Union(a, 0)}, flat, true, "")
+			}
+			// an index that has to be created below a member that does not exist yet (only magnitudes no
+			// allocation can satisfy, and negative ones: anything between would just allocate that much)
+			if a < 0 || a >= 1<<62 {
+				ck.check("Set", jpref.Path{jpspec.Root(), jpspec.Nth(0), jpspec.Child("n"), jpspec.Nth(a)}, maps, true, "")
 			}
 		}
 	}
